@@ -68,7 +68,8 @@ def workerRank (s : St) : Nat := ((List.range s.nw).map fun w => wcost (s.main w
 
 /-- upper bound on the number of events (other than new dispatch calls) that can still happen -/
 def rank (s : St) : Nat :=
-  taskRank s + workerRank s + (if s.sender then 1 else 0) + (if s.joined.isNone then 1 else 0)
+  taskRank s + workerRank s + (if s.sender then 1 else 0) + (if s.joined.isNone then 1 else 0) +
+    (if s.joiner.isNone then 1 else 0)
 
 theorem sum_map_le {α : Type} (l : List α) (f g : α → Nat) (h : ∀ x, x ∈ l → f x ≤ g x) :
     (l.map f).sum ≤ (l.map g).sum := by
@@ -100,10 +101,12 @@ theorem rank_lt_of {s s' : St} (hacc : s'.accepted = s.accepted) (hnw : s'.nw = 
     (hwork : ∀ w, w < s.nw → wcost (s'.main w) ≤ wcost (s.main w))
     (hsend : s'.sender = true → s.sender = true)
     (hjoin : s'.joined.isNone = true → s.joined.isNone = true)
+    (hjr : s'.joiner.isNone = true → s.joiner.isNone = true)
     (strict : (∃ t, t ∈ s.accepted ∧ (s'.view t).cost < (s.view t).cost) ∨
               (∃ w, w < s.nw ∧ wcost (s'.main w) < wcost (s.main w)) ∨
               (s.sender = true ∧ s'.sender = false) ∨
-              (s.joined.isNone = true ∧ s'.joined.isNone = false)) : rank s' < rank s := by
+              (s.joined.isNone = true ∧ s'.joined.isNone = false) ∨
+              (s.joiner.isNone = true ∧ s'.joiner.isNone = false)) : rank s' < rank s := by
   have ht : taskRank s' ≤ taskRank s := by
     unfold taskRank; rw [hacc]; exact sum_map_le _ _ _ (fun t _ => htask t)
   have hwk : workerRank s' ≤ workerRank s := by
@@ -115,8 +118,11 @@ theorem rank_lt_of {s s' : St} (hacc : s'.accepted = s.accepted) (hnw : s'.nw = 
   have hj1 : (if s'.joined.isNone then 1 else 0) ≤ (if s.joined.isNone then 1 else 0) := by
     cases h1 : s'.joined.isNone <;> cases h2 : s.joined.isNone <;> simp
     exact absurd (hjoin h1) (by simp [h2])
+  have hn1 : (if s'.joiner.isNone then 1 else 0) ≤ (if s.joiner.isNone then 1 else 0) := by
+    cases h1 : s'.joiner.isNone <;> cases h2 : s.joiner.isNone <;> simp
+    exact absurd (hjr h1) (by simp [h2])
   unfold rank
-  rcases strict with ⟨t, hta, hlt⟩ | ⟨w, hw, hlt⟩ | ⟨h1, h2⟩ | ⟨h1, h2⟩
+  rcases strict with ⟨t, hta, hlt⟩ | ⟨w, hw, hlt⟩ | ⟨h1, h2⟩ | ⟨h1, h2⟩ | ⟨h1, h2⟩
   · have : taskRank s' < taskRank s := by
       unfold taskRank; rw [hacc]
       exact sum_map_lt _ _ _ (fun t _ => htask t) ⟨t, hta, hlt⟩
@@ -127,6 +133,7 @@ theorem rank_lt_of {s s' : St} (hacc : s'.accepted = s.accepted) (hnw : s'.nw = 
     omega
   · simp only [h1, h2] at hs1 ⊢; simp at *; omega
   · simp only [h1, h2] at hj1 ⊢; simp at *; omega
+  · simp only [h1, h2] at hn1 ⊢; simp at *; omega
 
 /-- task costs never go up in an internal event -/
 theorem cost_le_of_step {s s' : St} {e : Event} (hq : QInv s) (he : e.external = false)
@@ -171,10 +178,10 @@ theorem rank_decreases {s s' : St} {e : Event} (h : Inv s) (he : e.external = fa
         have := congrArg TView.stat heq; simp [St.view, hp] at this
     obtain ⟨hp, hc | hc⟩ := runBlocking?_some hs
     · obtain ⟨v, _, rfl⟩ := hc
-      exact rank_lt_of rfl rfl htask (fun _ _ => Nat.le_refl _) id id
+      exact rank_lt_of rfl rfl htask (fun _ _ => Nat.le_refl _) id id id
         (Or.inl ⟨t, mem_accepted_of_stat h.t (by rw [hp]; simp), hlt⟩)
     · obtain ⟨_, rfl⟩ := hc
-      exact rank_lt_of rfl rfl htask (fun _ _ => Nat.le_refl _) id id
+      exact rank_lt_of rfl rfl htask (fun _ _ => Nat.le_refl _) id id id
         (Or.inl ⟨t, mem_accepted_of_stat h.t (by rw [hp]; simp), hlt⟩)
   | rxDrop t =>
     obtain ⟨h1, h2, rfl⟩ := rxDrop?_some hs
@@ -186,7 +193,7 @@ theorem rank_decreases {s s' : St} {e : Event} (h : Inv s) (he : e.external = fa
       have := (h.t.ok t).chan
       simp [St.view, ha, chanOk] at this
       exact h1 this
-    exact rank_lt_of rfl rfl htask (fun _ _ => Nat.le_refl _) id id
+    exact rank_lt_of rfl rfl htask (fun _ _ => Nat.le_refl _) id id id
       (Or.inl ⟨t, mem_accepted_of_stat h.t hne, hlt⟩)
   | recv w t =>
     obtain ⟨hlt', hi, hmem, rfl⟩ := recv?_some hs
@@ -194,7 +201,7 @@ theorem rank_decreases {s s' : St} {e : Event} (h : Inv s) (he : e.external = fa
     have hlt := cost_lt_of_step hq he hs t (by
       intro heq
       have := congrArg TView.stat heq; simp [St.view, hst] at this)
-    refine rank_lt_of rfl rfl htask ?_ id id (Or.inl ⟨t, mem_accepted_of_stat h.t (by rw [hst]; simp), hlt⟩)
+    refine rank_lt_of rfl rfl htask ?_ id id id (Or.inl ⟨t, mem_accepted_of_stat h.t (by rw [hst]; simp), hlt⟩)
     intro w' _
     show wcost ((if s.conc then s.main else upd s.main w (.awaiting t)) w') ≤ _
     split
@@ -206,19 +213,19 @@ theorem rank_decreases {s s' : St} {e : Event} (h : Inv s) (he : e.external = fa
       have hlt := cost_lt_of_step hq he hs t (by
         intro heq
         have := congrArg TView.stat heq; simp [St.view, hst] at this)
-      exact rank_lt_of rfl rfl htask (fun _ _ => Nat.le_refl _) id id
+      exact rank_lt_of rfl rfl htask (fun _ _ => Nat.le_refl _) id id id
         (Or.inl ⟨t, mem_accepted_of_stat h.t (by rw [hst]; simp), hlt⟩)
     · obtain ⟨k, hst, rfl⟩ := hc
       have hlt := cost_lt_of_step hq he hs t (by
         intro heq
         have := congrArg TView.stat heq; simp [St.view, hst] at this)
-      exact rank_lt_of rfl rfl htask (fun _ _ => Nat.le_refl _) id id
+      exact rank_lt_of rfl rfl htask (fun _ _ => Nat.le_refl _) id id id
         (Or.inl ⟨t, mem_accepted_of_stat h.t (by rw [hst]; simp), hlt⟩)
     · obtain ⟨v, hst, _, rfl⟩ := hc
       have hlt := cost_lt_of_step hq he hs t (by
         intro heq
         have := congrArg TView.stat heq; simp [St.view, hst] at this)
-      refine rank_lt_of rfl rfl htask ?_ id id
+      refine rank_lt_of rfl rfl htask ?_ id id id
         (Or.inl ⟨t, mem_accepted_of_stat h.t (by rw [hst]; simp), hlt⟩)
       intro w' _
       show wcost (resume s.main w (decide (s.main w = .awaiting t)) w') ≤ _
@@ -230,7 +237,7 @@ theorem rank_decreases {s s' : St} {e : Event} (h : Inv s) (he : e.external = fa
       have hlt := cost_lt_of_step hq he hs t (by
         intro heq
         have := congrArg TView.stat heq; simp [St.view, hst] at this)
-      refine rank_lt_of rfl rfl htask ?_ id id
+      refine rank_lt_of rfl rfl htask ?_ id id id
         (Or.inl ⟨t, mem_accepted_of_stat h.t (by rw [hst]; simp), hlt⟩)
       intro w' _
       show wcost (resume s.main w (decide (s.main w = .awaiting t)) w') ≤ _
@@ -241,38 +248,46 @@ theorem rank_decreases {s s' : St} {e : Event} (h : Inv s) (he : e.external = fa
   | die w p =>
     obtain ⟨hlt', hil, rfl⟩ := die?_some hs
     have hw4 : wcost (s.main w) = 4 := by cases hm : s.main w <;> simp [hm, Main.inLoop, wcost] at hil ⊢
-    refine rank_lt_of rfl rfl htask (fun w' _ => wcost_upd_le (by rw [hw4]; simp [wcost]) w') id id
+    refine rank_lt_of rfl rfl htask (fun w' _ => wcost_upd_le (by rw [hw4]; simp [wcost]) w') id id id
       (Or.inr (Or.inl ⟨w, hlt', ?_⟩))
     show wcost (upd s.main w (.dying p) w) < _
     rw [upd_same, hw4]; simp [wcost]
   | reap w =>
     obtain ⟨p, hlt', hdy, rfl⟩ := reap?_some hs
-    refine rank_lt_of (by simp) (by simp) htask ?_ (by simp) (by simp) (Or.inr (Or.inl ⟨w, hlt', ?_⟩))
+    refine rank_lt_of (by simp) (by simp) htask ?_ (by simp) (by simp) (by simp) (Or.inr (Or.inl ⟨w, hlt', ?_⟩))
     · intro w' _
       simp only [gc_main, clearExec_main]
       exact wcost_upd_le (by simp [hdy, wcost]) w'
     · simp [hdy, wcost]
   | joinStart =>
     obtain ⟨hsend, rfl⟩ := joinStart?_some hs
-    exact rank_lt_of (by simp) (by simp) htask (fun _ _ => by simp) (by simp) (by simp)
+    exact rank_lt_of (by simp) (by simp) htask (fun _ _ => by simp) (by simp) (by simp) (by simp)
       (Or.inr (Or.inr (Or.inl ⟨hsend, by simp⟩)))
+  | joinPool =>
+    obtain ⟨_, hn, rfl⟩ := joinHand?_some hs
+    exact rank_lt_of rfl rfl htask (fun _ _ => Nat.le_refl _) id id (by simp)
+      (Or.inr (Or.inr (Or.inr (Or.inr ⟨by simp [hn], by simp⟩))))
+  | joinFallbackThread =>
+    obtain ⟨_, hn, rfl⟩ := joinHand?_some hs
+    exact rank_lt_of rfl rfl htask (fun _ _ => Nat.le_refl _) id id (by simp)
+      (Or.inr (Or.inr (Or.inr (Or.inr ⟨by simp [hn], by simp⟩))))
   | exitLoop w =>
     obtain ⟨hlt', hi, _, _, rfl⟩ := exitLoop?_some hs
-    refine rank_lt_of rfl rfl htask (fun w' _ => wcost_upd_le (by simp [hi, wcost]) w') id id
+    refine rank_lt_of rfl rfl htask (fun w' _ => wcost_upd_le (by simp [hi, wcost]) w') id id id
       (Or.inr (Or.inl ⟨w, hlt', ?_⟩))
     show wcost (upd s.main w .draining w) < _
     simp [hi, wcost]
   | teardown w =>
     obtain ⟨hlt', hdr, rfl⟩ := teardown?_some hs
-    refine rank_lt_of rfl rfl htask ?_ id id (Or.inr (Or.inl ⟨w, hlt', ?_⟩))
+    refine rank_lt_of rfl rfl htask ?_ id id id (Or.inr (Or.inl ⟨w, hlt', ?_⟩))
     · intro w' _
       simp only [clearExec_main]
       exact wcost_upd_le (by simp [hdr, wcost]) w'
     · simp [hdr, wcost]
   | joinReturn =>
     obtain ⟨_, hj, _, rfl⟩ := joinReturn?_some hs
-    exact rank_lt_of rfl rfl htask (fun _ _ => Nat.le_refl _) id (by simp)
-      (Or.inr (Or.inr (Or.inr ⟨by simp [hj], by simp⟩)))
+    exact rank_lt_of rfl rfl htask (fun _ _ => Nat.le_refl _) id (by simp) id
+      (Or.inr (Or.inr (Or.inr (Or.inl ⟨by simp [hj], by simp⟩))))
 
 /-- a schedule without new dispatch calls is at most `rank s` events long -/
 theorem internal_run_bounded {s s' : St} {evs : List Event} (h : Inv s)
@@ -299,8 +314,11 @@ sequential mode no task body hangs forever (then `join` really waits forever: it
 theorem join_never_stuck {s : St} (h : Inv s) (hsend : s.sender = false) (hj : s.joined = none)
     (hterm : s.conc = false → ∀ t, (s.body t).out ≠ .never) :
     ∃ e, e.external = false ∧ (step? s e).isSome = true := by
+  cases hjr : s.joiner with
+  | none => exact ⟨.joinFallbackThread, rfl, by simp [step?, joinHand?, hsend, hjr]⟩
+  | some onPool =>
   cases hall : allGone s with
-  | true => exact ⟨.joinReturn, rfl, by simp [step?, joinReturn?, hsend, hj, hall]⟩
+  | true => exact ⟨.joinReturn, rfl, by simp [step?, joinReturn?, hsend, hj, hall, hjr]⟩
   | false =>
     obtain ⟨w, hw, hg⟩ := exists_not_gone hall
     cases hm : s.main w with
